@@ -16,6 +16,9 @@ func propC11(c *Ctx, r *Report) {
 		"no dropped diagnostic (E10): no call on the parse / lower / validate path discards an error or *ParseError result")
 	c.runErrflow(r, inPkgs("wgsl", "ir", "naga", "internal/registry"), droppedErrExceptions)
 	r.floor("errflow.parser-functions", 40)
+	r.Clauses = append(r.Clauses, "token characters (E20): in the lexer's punctuation scanner the characters consumed on the path to every addToken(K) spell exactly the WGSL token K (a delimiter or semicolon can only be diagnosed as missing if the tokens around it are cut at the right places)")
+	c.runLexerTokenChars(r, "lex.tokenchars")
+	r.floor("lex.tokenchars", 40)
 	r.Clauses = append(r.Clauses, "syntax-tree walkers (E3): every function reachable from the parser / lowerer entry points that walks the parser's tree (a type switch over Expr, Stmt, Type or Decl nodes using every child in >= 3/4 of its arms) uses every child node of every variant it has an arm for - a child that is only nil-checked or narrowed to one variant by a type assertion is flagged - and, when it has no default arm, has an arm for every variant that has children (dependency ordering, statement / expression / type lowering, constant evaluators)")
 	c.runFrontendASTWalkers(r, "frontend")
 	r.floor("frontend.astwalkers", 8)
